@@ -150,6 +150,21 @@ pub open spec fn resolves_to<T: Storable>(idmap: Map<Seq<char>, T::HandleType>, 
 '''
 
 
+BUILDITEM_SPEC = r'''
+/// the handle index a BuildItem request denotes in a store with this id map: an id resolves through the map (or as a
+/// temporary id), a handle is itself, a reference is the handle the referenced item carries, None denotes nothing
+pub open spec fn bi_denotes<'a, T: Storable>(b: BuildItem<'a, T>, idmap: Option<Map<Seq<char>, T::HandleType>>, temp_ids: bool) -> Option<usize> {
+    match b {
+        BuildItem::Id(s) => match idmap { Some(m) => resolves_to::<T>(m, temp_ids, s@), None => None },
+        BuildItem::IdRef(s) => match idmap { Some(m) => resolves_to::<T>(m, temp_ids, s@), None => None },
+        BuildItem::Handle(h) => Some(h.idx()),
+        BuildItem::Ref(inst) => match inst.spec_handle() { Some(h) => Some(h.idx()), None => None },
+        BuildItem::None => None,
+    }
+}
+'''
+
+
 def request_body(u, header, file=ST):
     """R-request: the body of `to_handle` of the given `impl Request<T> for X`, as an expression in
     which `store` is the StoreFor and `self` the request."""
@@ -188,13 +203,13 @@ def handle_request_body(u):
     return 'Some(*self)'
 
 
-def emit_store_layer(u, props, with_insert=True):
+def emit_store_layer(u, props, with_insert=True, with_builditem=False):
     """emit Type/TypeInfo, Config/Configurable, IdMap, Storable, StoreCallbacks, StoreFor"""
     P = props
     u.use('use std::collections::HashMap;')
     u.trusted_text(TRUSTED_STORE, 'external_body: vx_msg, vx_assert, VxStrMap (trusted model of HashMap<String,H>), vx_starts_with (str::starts_with), vx_owned (Option<&str>::map(to_string)), resolve_temp_id (contract assumed; bounded Kani harness k_temp_id)')
     u.item('src/error.rs', 'enum', 'StamError',
-           keep_variants=['HandleError', 'IdNotFoundError', 'NoIdError', 'Unbound', 'AlreadyBound', 'DuplicateIdError', 'NotFoundError', 'OtherError', 'InUse'],
+           keep_variants=['HandleError', 'IdNotFoundError', 'NoIdError', 'Unbound', 'AlreadyBound', 'DuplicateIdError', 'NotFoundError', 'OtherError', 'InUse', 'IncompleteError'],
            keep_derives=['Debug'])
     u.item('src/types.rs', 'enum', 'Type', keep_derives=['Clone', 'Copy', 'PartialEq', 'Debug'])
     u.spec('''
@@ -229,6 +244,7 @@ pub open spec fn temp_letter(t: Type) -> char {
         Fn('id', props=P, ret='r', decl_only=True,
            ensures=[('ghost', 'r is Some <==> self.spec_id() is Some'), ('value', 'r is Some ==> r.unwrap()@ == self.spec_id().unwrap()')]),
         Fn('carries_id', props=P, ret='r', ensures=[('ghost', 'r == Self::spec_carries_id()')]),
+        Fn('handle_or_err', props=P, ret='r', ensures=[('ok_iff', 'r is Ok <==> self.spec_handle() is Some'), ('handle', 'r is Ok ==> r->Ok_0 == self.spec_handle().unwrap()')]),
         Fn('with_handle', props=P, ret='r', decl_only=True,
            sig_rewrites=[('R-decl', r'\b_handle\b', 'handle')],
            ensures=[('handle', 'r.spec_handle() == Some(handle)'), ('id', 'r.spec_id() == self.spec_id()'), ('content', 'self.same_content(&r)')]),
@@ -239,6 +255,9 @@ pub open spec fn temp_letter(t: Type) -> char {
         extra='    type HandleType: Handle;\n' + STORABLE_GHOST)
     u.item(ST, 'type', 'Store')
     u.spec(STORE_SPEC, 'contracts/store_common.py:STORE_SPEC')
+    if with_builditem:
+        u.item(ST, 'enum', 'BuildItem', keep_derives=[])
+        u.spec(BUILDITEM_SPEC, 'contracts/store_common.py:BUILDITEM_SPEC')
     # ------------------------------------------------------------------ StoreCallbacks (contracts assumed by the generic code, proved per implementation where in reach)
     UNCHANGED = 'final(self).view_store() == old(self).view_store() && final(self).view_idmap() == old(self).view_idmap() && final(self).view_temp_ids() == old(self).view_temp_ids() && final(self).view_config() == old(self).view_config()'
     callbacks = [
@@ -285,11 +304,11 @@ def emit_idmap_ctor(u, P):
     ])
 
 
-def emit_storefor(u, P):
+def emit_storefor(u, P, with_builditem=False):
     """the generic StoreFor<T> trait with its default methods under contract (R-request instances, R-flatten callbacks)"""
     sc = __import__('contracts.store_common', fromlist=['x'])
     ST = sc.ST
-    callbacks = sc.emit_store_layer(u, P)
+    callbacks = sc.emit_store_layer(u, P, with_builditem=with_builditem)
     for cb in callbacks:
         cb.from_block = (ST, 'pub trait StoreCallbacks<T: crate::store::Storable>')
         cb.sig_rewrites.append(('R-path', r'crate::error::StamError', 'StamError'))
@@ -310,6 +329,8 @@ def emit_storefor(u, P):
 
     def target(suffix):
         # the handle index the request denotes
+        if suffix == '__build':
+            return 'bi_denotes::<T>(*item, self.view_idmap(), self.view_temp_ids())'
         if suffix == '__str':
             return "(match self.view_idmap() { Some(m) => resolves_to::<T>(m, self.view_temp_ids(), item@), None => None })"
         return 'Some(item.idx())'
@@ -344,6 +365,14 @@ def emit_storefor(u, P):
                 ('callback', f'r is Ok && Self::cascade_free() ==> forall|h: T::HandleType| h.idx() == {t}.unwrap() ==> #[trigger] Self::preremove_post(old(self).view_store(), old(self).view_rest(), old(self).view_store(), final(self).view_rest(), h, true)'),
                 ('succeeds', f'(Self::cascade_free() && {t} is Some && live(old(self).view_store(), {t}.unwrap() as int) && Self::preremove_ok(*old(self), {t}.unwrap())) ==> r is Ok')]
 
+    build_variant = []
+    if with_builditem:
+        # R-request at `&BuildItem<T>` (what insert_data and the builders pass): to_handle inlined
+        b_req = re.sub(r'\bstore\b', 'self', re.sub(r'\bself\b', 'item', sc.request_body(u, "impl<'a, T> Request<T> for &BuildItem<'a, T>")))
+        build_variant = [Fn('get', emit_name='get__build', props=P, ret='r',
+                            sig_rewrites=[('R-request', r'item: impl Request<T>', "item: &BuildItem<'_, T>")],
+                            rewrites=[('R-request', r'item\.to_handle\(self\)', b_req)],
+                            ensures=get_ens('__build'))]
     fns = [
         Fn('store', props=P, ret='r', ensures=[('view', 'r@ == self.view_store()')]),
         Fn('store_mut', props=P, ret='r',
@@ -367,7 +396,7 @@ def emit_storefor(u, P):
            prologue='proof { T::HandleType::hmax_bound(); }'),
         Fn('next_handle', props=P, ret='r', requires=[('fits', 'self.view_store().len() <= T::HandleType::hmax()')],
            ensures=[('next', 'r.idx() == self.view_store().len()')]),
-    ] + req_variants('has', ensures_fn=has_ens) + req_variants('get', ensures_fn=get_ens) \
+    ] + req_variants('has', ensures_fn=has_ens) + req_variants('get', ensures_fn=get_ens) + build_variant \
       + req_variants('get_mut', ensures_fn=get_mut_ens) + req_variants('remove', ensures_fn=remove_ens, requires=[('wf', 'idmap_wf(old(self).view_store(), old(self).view_idmap())')],
                                                                         after=[('*item = None;', 'proof { assert forall|h: T::HandleType| h.idx() == handle.idx() && Self::cascade_free() implies #[trigger] Self::preremove_post(old(self).view_store(), old(self).view_rest(), old(self).view_store(), self.view_rest(), h, true) by { T::HandleType::idx_injective(h, handle); } }', None, 'callback')],
                                                                         rewrites=[('R-outline', r'item\.id\(\)\.map\(\|x\| x\.to_string\(\)\)', 'vx_owned(item.id())')])
